@@ -160,7 +160,8 @@ def _cg(
                 info = 0
                 break
             else:
-                pos = previous_gamma / (-curv) * (-j)
+                # steepest descent step (`d` is the gradient at the start)
+                pos = pos - previous_gamma / (-curv) * d
                 info = 0
                 break
         alpha = previous_gamma / curv
@@ -281,7 +282,7 @@ def _static_cg(
         pos = pos - alpha * d
         pos = where(
             (curv < 0.0) & (not _raise_nonposdef) & (i <= 1),
-            previous_energy / (-curv) * (-j),
+            pos - previous_gamma / (-curv) * d,
             pos,
         )
         r = cond(
